@@ -579,7 +579,7 @@ ORDER_PRESERVING = {
     "iter", "iter_mut", "into_iter", "map", "cloned", "copied", "collect", "by_ref", "enumerate", "into_values",
     "values", "values_mut", "for_each", "as_slice", "as_ref", "as_mut", "to_vec", "into_vec", "into_boxed_slice",
     "inspect", "peekable", "fuse", "deref", "deref_mut", "borrow", "as_deref", "as_mut_slice", "zip", "chain",
-    "into", "clone", "to_owned", "keys", "drain", "execute",
+    "into", "clone", "to_owned", "keys", "drain", "execute", "<for>", "<closure-arg>",
 }
 LOSSY = {
     "rev", "skip", "take", "filter", "filter_map", "step_by", "skip_while", "take_while", "nth", "last", "first",
